@@ -1020,17 +1020,17 @@ func (s *sim) compareBehaviour(ev int, moved map[uint64]bool) bool {
 }
 
 func (e *Engine) Describe(prop string) core.Description {
-	d := core.Description{QuickRuns: 6000}
+	d := core.Description{QuickRuns: 16000}
 	gen := "Each run = one generated code (3 of 4 runs: synthetic ISA given as parser.Instruction values with lengths 1-8 bytes, arbitrary register read/write sets, loads/stores on 1-2 memory keys, memory-order / syscall / CPU-state flags, constant / conditional / register / next-instruction jump targets, address gaps; 1 of 4: real RV64IMA words lifted by the real front end) partitioned by the real deps.NewCode, then a seeded history of 1-60 (thorough: up to 150) events: instruction moves and block moves with valid, boundary, just-outside, negative and too-large indices, address lookups (instruction starts, mid-instruction, gaps, outside) and bounds queries. "
 	switch prop {
 	case "C07":
 		d.Rule = gen + "After EVERY event: move accepted iff indices valid and target within the bounds reported before the move; rejected move leaves a full rendered snapshot unchanged; accepted move = rotation in the sequence model; every instruction within its own bounds, addresses = prefix sums from block start, Idx = position, Code.Address/Block.Address find each instruction only at its start, every instruction after all VerifDeps predecessors, block moves permute Blocks() only. Non-trivial = at least one accepted move that changed an order; distinct = distinct event-log hashes among those."
 	case "C06":
 		d.Rule = gen + "At the initial state and after every move: every adjacent pair that is independent by the statement's own five clauses (computed by the harness from the effects with its own expression walker) is probed with Move(i,i+1) on the real block, which must be accepted, then undone (snapshot must be restored). Non-trivial = at least one accepted history move (newly adjacent pairs); distinct = distinct event-log hashes among those."
-		d.QuickRuns = 4000
+		d.QuickRuns = 10000
 	case "C05":
 		d.Rule = gen + "At 3 points of the history every block whose order differs from address order is emulated (real emulator.Step, one step per instruction from the block start) on a freshly built unmoved code and on the moved code from 3 identical pseudo-random machine states (fully known register file, memory supplied lazily and byte-consistently by a simulated provider); final registers, memory and instruction pointer must be equal; instructions of unmoved blocks are single-stepped on both codes after block moves. Non-trivial = at least one accepted order-changing move; distinct = distinct event-log hashes among those."
-		d.QuickRuns = 3000
+		d.QuickRuns = 24000
 	}
 	d.ComponentsReal = []string{"deps.NewCode (basic-block partition, dependency finders)", "deps.Block.Move/LowerBound/UpperBound/Address", "deps.Code.Move/Address", "riscv.Parser (real-word runs)", "emulator.Step + state + memory (C05)"}
 	d.ComponentsStub = []string{"construction of parser.Instruction from a lifted model.Instruction (5 lines replicating parser.newInstruction)"}
